@@ -122,8 +122,10 @@ def run(prop, tier, seed, replay=None):
     gen_changed = False
     try:
         text = mod.extract(ctx) if hasattr(mod, "extract") else None
-        if text is not None:
-            gen_changed = leanio.write_if_changed(os.path.join(LEAN, "Generated", prop + ".lean"), text)
+        if isinstance(text, str):
+            text = {prop: text}
+        for fname, body in (text or {}).items():
+            gen_changed = leanio.write_if_changed(os.path.join(LEAN, "Generated", fname + ".lean"), body) or gen_changed
     except InfraError:
         raise
     except Exception as e:  # the working tree no longer yields the data: a broken tie, handled below
